@@ -91,7 +91,12 @@ func (a *IBCAdapter) ParsePacket(
 	}
 
 	if packet.GetReceiver() != core.ModuleAddress.String() {
-		return nil, core.ErrNoOrbiterPacket.Wrap("receiver is not Orbiter module")
+		// The ICS20 app decodes the receiver, so any other bech32 spelling of the
+		// module address (e.g. upper case) is credited to the Orbiter as well.
+		receiver, err := sdk.AccAddressFromBech32(packet.GetReceiver())
+		if err != nil || !receiver.Equals(core.ModuleAddress) {
+			return nil, core.ErrNoOrbiterPacket.Wrap("receiver is not Orbiter module")
+		}
 	}
 
 	payload, err := a.parser.ParsePayload([]byte(packet.GetMemo()))
